@@ -157,7 +157,10 @@ func RandOp(r *rand.Rand, pats *[]*RE) *Op {
 func RandPolicyOps(r *rand.Rand) []*Op {
 	var pats []*RE
 	n := 1 + r.Intn(14)
-	ops := make([]*Op, 0, n)
+	ops := make([]*Op, 0, n+1)
+	if r.Intn(7) == 0 {
+		ops = append(ops, &Op{Kind: "ZERO"}) // built on Policy{} instead of NewPolicy()
+	}
 	for i := 0; i < n; i++ {
 		ops = append(ops, RandOp(r, &pats))
 	}
